@@ -364,6 +364,17 @@ void Exec::step(const Step &s) {
     note("c" + std::to_string(ci) + ":" + s.S(0) + "(" + s.S(1) + ")");
     return;
   }
+  if (t == "becomemonitor") {
+    // n=[flags, deliver] s=[rules...]
+    std::vector<wire::Value> rules;
+    for (auto &r : s.s) rules.push_back(wire::Value::string(r));
+    wire::Msg m = wire::Msg::method_call(c.next_serial++, bm::BUS, "/org/freedesktop/DBus", "org.freedesktop.DBus.Monitoring", "BecomeMonitor",
+                                         {wire::Value::array("s", rules), wire::Value::u32((uint32_t)s.N(0, 0))});
+    c.asked_monitor = true;
+    send_msg(ci, m, s.N(1, -1));
+    note("c" + std::to_string(ci) + ":BecomeMonitor(" + std::to_string(rules.size()) + " rules)");
+    return;
+  }
   if (t == "addmatch" || t == "rmmatch") {
     std::string rule = s.S(0);
     // "$uK" inside rule text
@@ -596,6 +607,7 @@ void Exec::compare_client(int ci) {
         fail("oracle:" + prop + ":wrong-message", "c%d received %s while the model expects %s(first mismatch: %s)", ci, o.repr().c_str(), want.c_str(), firstwhy.c_str());
       }
       used[(size_t)hit] = true;
+      if (getenv("SIM_DEBUG_COMPARE")) fprintf(stderr, "CMP c%d ev%llu: %s <= [%s%s]\n", ci, (unsigned long long)g.event, o.repr().substr(0, 150).c_str(), g.items[(size_t)hit].what.c_str(), g.items[(size_t)hit].optional ? " (optional)" : "");
       if (!g.items[(size_t)hit].optional) required_left--;
       counters["oracle_items_matched"]++;
       counters["matched:" + g.items[(size_t)hit].prop]++;
@@ -656,6 +668,9 @@ void Exec::check_point(bool final) {
   if (tainted) { for (auto &c : w.clients) c.got_checked = c.got.size(); return; }
   // Bounded liveness for reply_timeout: slots overdue now must be expired (NoReply sent) within one
   // more timeout of simulated time once the system is left alone.
+  for (auto &p : md.pending)
+    if (p.doomed)
+      fail("oracle:C09:not-expired", "c%d's call %u was addressed to a connection that has gone away, the bus is idle, and no NoReply has been sent", p.caller, p.serial);
   if (lim_cfg.reply_timeout >= 0 && !md.overdue().empty()) {
     w.advance_ms(lim_cfg.reply_timeout + 1);
     md.now_us = K->now_us;
@@ -715,7 +730,7 @@ core::RunResult Exec::run() {
       md.now_us = K->now_us;
       tr.ev("H2c expired caller=c%d callee=c%d serial=%u", caller, callee, serial);
       for (auto &p : md.pending)
-        if (p.caller == caller && p.callee == callee && p.serial == serial && p.deadline_us >= 0 && K->now_us < p.deadline_us && md.conns[(size_t)callee].alive)
+        if (p.caller == caller && p.callee == callee && p.serial == serial && !p.doomed && p.deadline_us >= 0 && K->now_us < p.deadline_us && callee >= 0 && md.conns[(size_t)callee].alive)
           fail("oracle:C09:expired-early", "the reply slot of c%d's call %u to c%d was expired %lld ms before reply_timeout elapsed", caller, serial, callee, (long long)((p.deadline_us - K->now_us) / 1000));
       md.reply_expired(caller, callee, serial);
       after_event();
